@@ -8,7 +8,11 @@ package interp
 // before each sync/atomic.LoadUint64); the cancel instant is a symbolic
 // clock value.
 
-import "reflect"
+import (
+	"go/token"
+	"io"
+	"reflect"
+)
 
 var (
 	vhClock    int  // logical clock: number of run-id loads so far
@@ -47,6 +51,8 @@ func vhNewInterp() *Interpreter {
 	i.frame = newFrame(nil, 1, i.runid())
 	i.scopes = map[string]*scope{}
 	i.universe = &scope{}
+	i.fset = token.NewFileSet()
+	i.stderr = io.Discard
 	vhInterp = i
 	return i
 }
